@@ -93,14 +93,22 @@ def run(ctx):
     for ps, g in [("PEd25519", "Ed25519"), ("P1024", "I1024"), ("P2048", "I2048"), ("P3072", "I3072")]:
         uni.paramset(ps)
         traces += full_size(ctx, uni, g, thorough)
-    # beyond the listed properties: type misuse raises, equal elements hash equally, Ed25519 clamping
-    t = Trace("api-misuse", uni)
+    # beyond the listed properties, INFORMATIONAL only (never a violation: no listed property speaks about them):
+    # type misuse of the API, hash consistency of equal elements, Ed25519 private-key clamping
+    info = []
     for g, other in (("i23", "i263"), ("ed37", "i23"), ("Ed25519", "I1024"), ("I1024", "I2048")):
         uni.group(g)
         uni.group(other)
         for e in pure.misuse_events(uni, g, other):
-            t.raw(e)
-    for b in (bytes(32), b"\xff" * 32, bytes(range(32)), bytes([ctx.rng.randrange(256) for _ in range(32)])):
-        t.raw(pure.ev_clamp(uni, "Ed25519", b))
-    traces.append(t.to_json())
+            if e["op"] == "misuse" and not e["raised"]:
+                info.append("accepted: " + e["what"])
+            if e["op"] == "hash_eq" and not e["same"]:
+                info.append("equal elements of %s hash differently" % g)
+    ctx.cov["informational_api_misuse"] = info or "every misuse of the element API raised; equal elements hash equally"
+    if hasattr(uni.basic["Ed25519"], "bytes_to_clamped_scalar"):
+        t = Trace("clamp", uni)
+        for b in (bytes(32), b"\xff" * 32, bytes(range(32))):
+            t.raw(pure.ev_clamp(uni, "Ed25519", b))
+        res, _ = validate_traces([t.to_json()], uni.header(), label="C13info")
+        ctx.cov["informational_clamp"] = "ok" if not res[0]["errs"] else res[0]["errs"][0]["why"]
     ctx.validate(traces, uni, what="element API")
